@@ -19,25 +19,33 @@ import (
 
 // Config is the broker configuration of one case. Zero values mean "server default".
 type Config struct {
-	MaximumQos        *byte    `json:"max_qos,omitempty"`
-	RetainUnavailable bool     `json:"retain_unavailable,omitempty"`
-	MaximumClients    int64    `json:"max_clients,omitempty"`
-	ReceiveMaximum    uint16   `json:"receive_maximum,omitempty"`
-	MaximumInflight   uint16   `json:"max_inflight,omitempty"`
-	WritesPending     int32    `json:"writes_pending,omitempty"`
-	MaximumPacketSize uint32   `json:"max_packet_size,omitempty"`
-	TopicAliasMaximum *uint16  `json:"topic_alias_max,omitempty"`
-	MaxSessionExpiry  *uint32  `json:"max_session_expiry,omitempty"`
-	MaxMessageExpiry  *int64   `json:"max_message_expiry,omitempty"`
-	WriteBuf          int      `json:"write_buf,omitempty"`
-	InlineClient      bool     `json:"inline,omitempty"`
-	Obscure           bool     `json:"obscure,omitempty"`
-	Auth              string   `json:"auth,omitempty"` // "" = allow-all, "none" = no auth hook, "perm" = permission table
-	Perm              *Perm    `json:"perm,omitempty"`
-	Scripts           []Script `json:"scripts,omitempty"` // scripted hooks (C19), registered in order after the auth hook
+	MaximumQos        *byte        `json:"max_qos,omitempty"`
+	RetainUnavailable bool         `json:"retain_unavailable,omitempty"`
+	MaximumClients    int64        `json:"max_clients,omitempty"`
+	ReceiveMaximum    uint16       `json:"receive_maximum,omitempty"`
+	MaximumInflight   uint16       `json:"max_inflight,omitempty"`
+	WritesPending     int32        `json:"writes_pending,omitempty"`
+	MaximumPacketSize uint32       `json:"max_packet_size,omitempty"`
+	TopicAliasMaximum *uint16      `json:"topic_alias_max,omitempty"`
+	MaxSessionExpiry  *uint32      `json:"max_session_expiry,omitempty"`
+	MaxMessageExpiry  *int64       `json:"max_message_expiry,omitempty"`
+	WriteBuf          int          `json:"write_buf,omitempty"`
+	InlineClient      bool         `json:"inline,omitempty"`
+	Obscure           bool         `json:"obscure,omitempty"`
+	Auth              string       `json:"auth,omitempty"` // "" = allow-all, "none" = no auth hook, "perm" = permission table, "ledger" = auth.Hook with Ledger
+	Ledger            []LedgerRule `json:"ledger,omitempty"`
+	Perm              *Perm        `json:"perm,omitempty"`
+	Scripts           []Script     `json:"scripts,omitempty"` // scripted hooks (C19), registered in order after the auth hook
 	// ClientPIDBase: the harness's clients number their own packets from this value + 1 (default 0). Properties that
 	// are not about identifier collisions between the two directions set it high, away from the broker's 1, 2, 3, ...
 	ClientPIDBase uint16 `json:"client_pid_base,omitempty"`
+}
+
+// LedgerRule is one auth rule of the bundled ledger hook: exact username and password, allow or deny.
+type LedgerRule struct {
+	Username string `json:"username"`
+	Password string `json:"password"`
+	Allow    bool   `json:"allow"`
 }
 
 // Perm is a generated permission relation: exact (client id, topic-or-filter string, write) triples, with a default.
@@ -130,6 +138,7 @@ type Action struct {
 	AutoAck    bool            `json:"auto_ack,omitempty"`    // the connection acknowledges everything it receives at once
 	Park       []string        `json:"park,omitempty"`        // schedule points at which the new handler parks
 	RawConnect *refmqtt.Packet `json:"raw_connect,omitempty"` // send this CONNECT instead of building one
+	RawFirst   []byte          `json:"raw_first,omitempty"`   // send these bytes as the first thing on the connection instead of a CONNECT
 
 	// subscribe / unsubscribe
 	Filters []refmqtt.Filter `json:"filters,omitempty"`
@@ -390,6 +399,12 @@ func NewRun(c *Case, extraHooks ...mqtt.Hook) *Run {
 		_ = b.S.AddHook(new(auth.AllowHook), nil)
 	case "perm":
 		_ = b.S.AddHook(&permHook{p: c.Cfg.Perm}, nil)
+	case "ledger":
+		l := &auth.Ledger{}
+		for _, lr := range c.Cfg.Ledger {
+			l.Auth = append(l.Auth, auth.AuthRule{Username: auth.RString(lr.Username), Password: auth.RString(lr.Password), Allow: lr.Allow})
+		}
+		_ = b.S.AddHook(new(auth.Hook), &auth.Options{Ledger: l})
 	case "none":
 	}
 	r := &Run{B: b, Case: c, Tags: map[int]*TagInfo{}, StartedAt: time.Now().Unix()}
@@ -751,6 +766,10 @@ func (r *Run) doConnect(s *Step, a *Action) {
 	pk.Version = p.Version
 	p.Connect = pk
 	s.Sent = pk
+	if a.RawFirst != nil {
+		link.Send(a.RawFirst)
+		return
+	}
 	link.Send(refmqtt.Encode(pk, refmqtt.Style{}))
 }
 
